@@ -362,7 +362,7 @@ func discharge(pool *SolverPool, hr *HarnessResult, workers, timeoutMs int, dump
 						o.Verdict = "unknown"
 					}
 				}
-				if dumpDir != "" && !o.OK {
+				if dumpDir != "" && (!o.OK || (os.Getenv("GOSYM_DUMP_SLOW_MS") != "" && fmt.Sprint(o.Ms) >= "" && o.Ms >= atoi64(os.Getenv("GOSYM_DUMP_SLOW_MS")))) {
 					os.MkdirAll(dumpDir, 0755)
 					script, _ := Script(as, nil)
 					fn := filepath.Join(dumpDir, sanitize(o.ID)+".smt2")
@@ -380,4 +380,10 @@ func discharge(pool *SolverPool, hr *HarnessResult, workers, timeoutMs int, dump
 
 func sanitize(s string) string {
 	return regexp.MustCompile(`[^A-Za-z0-9_.-]+`).ReplaceAllString(s, "_")
+}
+
+func atoi64(s string) int64 {
+	var n int64
+	fmt.Sscanf(s, "%d", &n)
+	return n
 }
